@@ -19,9 +19,10 @@ MANIFEST = dict(
           "of comment/doctype/CDATA/declaration/PI) composed with C03's machine. Theorems for ALL callback streams: void elements are "
           "childless in any mixture of <br>, <br/>, <br></br>; a redundant end tag of a void element is ignored; numeric and named "
           "references denote their characters; the duplicate-attribute policy; special strings keep content and class (see evidence "
-          "'theorems'). Tie: CPython's tokenizer is NOT modelled - its callback stream is recorded for every text by a plain HTMLParser "
-          "subclass and (i) for documents written by an independent writer the real tree must equal the fold of the intended events, "
-          "(ii) for malformed text the real tree must equal the model's fold of the recorded stream. Whole documents: emit_build - for every "
+          "'theorems'). Tie: the callback stream of every text is recorded by a plain HTMLParser subclass and (i) for documents written by an "
+          "independent writer the real tree must equal the fold of the intended events, (ii) for malformed text the real tree must equal "
+          "the model's fold of the recorded stream, (iii) the Lean code-mirror of CPython's tokenizer (Model/Tokenizer.lean, theorems in "
+          "Props/TK.lean) must produce exactly the recorded stream on every text of every stream (tokenizer-model). Whole documents: emit_build - for every "
           "document, every assignment of the writer's per-occurrence choices (void spelling <br> / <br/> / <br></br>, chunking of text, "
           "literal / decimal / hexadecimal / named spelling of every character with any leading zeros and case, keyword case, start-tag "
           "positions) and every configuration, adapter + C03 machine applied to the callback stream of the written markup (Model/Writer.lean: "
@@ -31,9 +32,11 @@ MANIFEST = dict(
           "excluded points (void element with a child, numeric reference to 128-159, over-long decimal digit string, unknown name) are run "
           "on the real code, where the conclusion must fail."),
     design="7/C04",
-    note=("PARTIAL: the tokenizer (which callbacks, with which positions, for a text) is recorded, not verified. Multi-valued attribute "
+    note=("CPython's tokenizer is outside the repository: it is modelled in Lean and tied to the real one by exact equality of the callback "
+          "streams on every text of the run (html.unescape, str.lower and the HTML5 entity table are parameters answered by the real "
+          "functions), not verified. Multi-valued attribute "
           "splitting is C17's: C04 runs with multi_valued_attributes=None except in the option-grid stream where values are compared joined."),
-    technique="Lean 4 proof over an adapter model composed with the C03 machine + recorded-tokenizer differential correspondence + independent writer oracle",
+    technique="Lean 4 proof (adapter + C03 machine, whole-document writer theorem, tokenizer code-mirror) + differential correspondence with the real parser + independent writer oracle",
 )
 
 VOID = ["br", "hr", "img", "input", "meta", "link", "wbr"]
